@@ -39,7 +39,11 @@ class C05(Property):
                         item = rng.choice([b"-" + c + b"!", b"-" + c + c + b"%", b"-" + c + b"!" + c])
                         cases.append(Case("%sw%d" % (gid, j), opts, base[:posn] + [item] + base[posn:],
                                           tags={"role": "oddword", "group": gid, "item": item, "pos": posn, "twin": "%sv%d" % (gid, j)}))
-                        cases.append(Case("%sv%d" % (gid, j), opts, base[:posn] + [b"Zw9q"] + base[posn:],
+                        # the twin: a word of the same length made of a dash and undeclared letters only (the same kind of plain
+                        # word, without a declared letter in it), so that length- or dash-sensitive closures see no difference
+                        twin = b"-" + b"!" * (len(item) - 1)
+                        cases[-1].tags["twin_word"] = twin
+                        cases.append(Case("%sv%d" % (gid, j), opts, base[:posn] + [twin] + base[posn:],
                                           tags={"role": "plainword", "group": gid, "pos": posn}))
                 # duplication of one item
                 if base:
@@ -82,7 +86,7 @@ class C05(Property):
                     ct, cm = compare.impl_class(twin), compare.impl_class(mine)
                     if ct == "OK":
                         nontrivial.append(c.line())
-                    want = twin[1].replace("(bytes %s)" % gen.hx(b"Zw9q"), "(bytes %s)" % gen.hx(c.tags["item"])) if ct == "OK" else None
+                    want = twin[1].replace("(bytes %s)" % gen.hx(c.tags["twin_word"]), "(bytes %s)" % gen.hx(c.tags["item"])) if ct == "OK" else None
                     if ct != cm or (ct == "OK" and mine[1] != want):
                         out.append(Finding("violation", c,
                                            "the word %r (a declared flag letter followed by an undeclared one) is not treated as one "
